@@ -226,8 +226,9 @@ class P:
                 stmts.append(("expr", e))
                 continue
             if self.at("}"):
-                if e[0] == "if" and (e[3] is None or (e[2][2] is None and e[3][2] is None)):
-                    stmts.append(("expr", e))      # a value-less `if` in tail position is a statement
+                if e[0] in ("for", "foreach", "fordownrange", "while") or \
+                        (e[0] == "if" and (e[3] is None or (e[2][2] is None and e[3][2] is None))):
+                    stmts.append(("expr", e))      # a value-less `if` / loop in tail position is a statement
                 else:
                     tail = e
                 break
@@ -332,9 +333,17 @@ class P:
                 e = ("try", e)
             elif self.at("["):
                 self.next()
-                ix = self.expr()
-                self.eat("]")
-                e = ("index", e, ix)
+                lo = None if (self.at("..") or self.at("..=")) else self.expr()
+                if self.at("..") or self.at("..="):
+                    incl = self.next()[1] == "..="
+                    hi = None if self.at("]") else self.expr()
+                    if incl:
+                        hi = ("bin", "+", hi, ("num", 1, None))
+                    self.eat("]")
+                    e = ("slice", e, lo, hi)
+                else:
+                    self.eat("]")
+                    e = ("index", e, lo)
             else:
                 return e
 
@@ -412,8 +421,11 @@ class P:
                 try:
                     self.eat("(")
                     lo = self.expr()
-                    self.eat("..")
-                    hi = self.expr()
+                    if self.accept("..="):
+                        hi = ("bin", "+", self.expr(), ("num", 1, None))
+                    else:
+                        self.eat("..")
+                        hi = self.expr()
                     self.eat(")")
                     self.eat(".")
                     self.eat("rev")
@@ -521,8 +533,8 @@ class Tr:
                 return [], "(B - 1)", "u64"
             if p == "u128::MAX":
                 return [], "(BB - 1)", "u128"
-            if p in ("Ordering::Less", "Ordering::Equal", "Ordering::Greater"):
-                return [], {"Less": "Lt", "Equal": "Eq", "Greater": "Gt"}[e[1][1]], "ordering"
+            if len(e[1]) >= 2 and e[1][-2] == "Ordering" and e[1][-1] in ("Less", "Equal", "Greater"):
+                return [], {"Less": "Lt", "Equal": "Eq", "Greater": "Gt"}[e[1][-1]], "ordering"
             if e[1][0] == "Self" and len(e[1]) == 2 and f.selfty == "uint":
                 c = e[1][1]
                 if c == "ZERO":
@@ -603,6 +615,11 @@ class Tr:
             f.impure = True
             v = f.fresh()
             return b + bi + ["do %s <- idx %s %s ;" % (v, paren(a), paren(ai))], v, "u64"
+        if k == "slice":
+            bs, a, lo, hi = self.slice_bounds(f, e, env)
+            v = f.fresh()
+            f.impure = True
+            return bs + ["do %s <- subslice %s %s %s ;" % (v, paren(a), paren(lo), paren(hi))], v, ("slice", "u64")
         if k == "macro":
             raise Unsupported("macro in expression: " + e[1])
         if k == "if":
@@ -616,6 +633,15 @@ class Tr:
         if k == "bin":
             return self.binop(f, e, env, want)
         raise Unsupported("expression kind " + k)
+
+    def slice_bounds(self, f, e, env):
+        """`xs[lo..hi]`: (binds, atom of xs, atom of lo, atom of hi); missing bounds are 0 / xs.len()"""
+        b, a, t = self.ex(f, e[1], env)
+        if not (isinstance(t, tuple) and t[0] in ("slice", "arr")):
+            raise Unsupported("range index into a non-slice")
+        bl, al = ([], "0") if e[2] is None else self.ex(f, e[2], env, "usize")[:2]
+        bh, ah = ([], "(lenZ %s)" % paren(a)) if e[3] is None else self.ex(f, e[3], env, "usize")[:2]
+        return b + bl + bh, a, al, ah
 
     def chk(self, f, t, s):
         f.impure = True
@@ -692,6 +718,9 @@ class Tr:
                 b3, a3, t3 = self.apply(f, "U." + self.binops[op], [("__atom", paren(a2))], env, recv=("__atom", paren(a1)))
                 return bs + b3, a3, t3
             raise Unsupported("operator %s on Uint" % op)
+        if op in ("==", "!=") and t1 == "ordering":
+            r = "(match %s, %s with Lt, Lt | Eq, Eq | Gt, Gt => true | _, _ => false end)" % (a1, a2)
+            return bs, r if op == "==" else "(negb %s)" % r, "bool"
         if op in ("==", "!=", "<", ">", "<=", ">="):
             if t1 == "bool":
                 r = "(Bool.eqb %s %s)" % (paren(a1), paren(a2))
@@ -870,9 +899,24 @@ class Tr:
             raise Unsupported("arity of " + name)
         if uintm and "BITS" not in env:
             raise Unsupported("Uint method called outside a Uint impl")
-        for a, pt in zip(allargs, ptys):
+        windows = {}
+        for k_, (a, pt) in enumerate(zip(allargs, ptys)):
             if isinstance(a, tuple) and a and a[0] == "__atom":
                 atoms.append(a[1])
+                continue
+            tg = a
+            while isinstance(tg, tuple) and tg and tg[0] == "un" and tg[1] in ("&", "*"):
+                tg = tg[2]
+            if k_ in mutidx and isinstance(tg, tuple) and tg and tg[0] == "slice":
+                # `f(&mut xs[lo..hi], ..)`: the callee works on the window, which is written back afterwards
+                if tg[1][0] != "var":
+                    raise Unsupported("&mut sub-slice of a non-variable")
+                b, sa, lo, hi = self.slice_bounds(f, tg, env)
+                wv = f.fresh()
+                f.impure = True
+                bs += b + ["do %s <- subslice %s %s %s ;" % (wv, paren(sa), paren(lo), paren(hi))]
+                atoms.append(wv)
+                windows[k_] = (tg[1][1], lo)
                 continue
             b, s, t = self.ex(f, a, env, pt if not (isinstance(pt, tuple) and pt[0] == "mutref") else pt[1])
             bs += b
@@ -890,7 +934,10 @@ class Tr:
                         tgt = tgt[2]
                     nv = f.fresh()
                     outs.append(nv)
-                    if tgt[0] == "index" and tgt[1][0] == "var":
+                    if k in windows:
+                        nm, lo = windows[k]
+                        post.append("let %s := splice %s %s %s in" % (env[nm][0], env[nm][0], paren(lo), nv))
+                    elif tgt[0] == "index" and tgt[1][0] == "var":
                         bi, ai, _ = self.ex(f, tgt[2], env, "usize")
                         if bi:
                             raise Unsupported("computed index of a &mut element")
@@ -1030,6 +1077,7 @@ class Tr:
                     lhs(s[1][1])
                 for x in ([s[-1]] if s[0] in ("let", "assign", "expr") else []):
                     self.kernel_targets(x, lhs)
+                    self.callee_targets(x, lhs)
         walk(blk)
         return out
 
@@ -1081,6 +1129,30 @@ class Tr:
         if rev:
             return ("fordown", ix, ("mcall", src, "len", []), None, sub(body))
         return ("for", ix, ("num", 0, None), ("mcall", src, "len", []), sub(body))
+
+    def callee_targets(self, e, lhs):
+        """a call of a translated function with `&mut` parameters anywhere in e mutates the argument's root
+        variable (`f(&mut xs[a..b])`, `f(&mut x)`, `f(xs)` with xs a `&mut` slice)"""
+        if not isinstance(e, tuple):
+            return
+        if e and e[0] == "call" and e[1][0] in ("var", "path"):
+            name = e[1][1] if e[1][0] == "var" else "::".join(e[1][1])
+            name = self.alias.get(name, name)
+            sig = self.sigs.get(name)
+            if sig and sig[4]:
+                for k_ in sig[4]:
+                    if k_ < len(e[2]):
+                        t = e[2][k_]
+                        while isinstance(t, tuple) and t and t[0] in ("un", "slice", "index", "field"):
+                            t = t[2] if t[0] == "un" else t[1]
+                        if t[0] == "var":
+                            lhs(t)
+        for x in e:
+            if isinstance(x, tuple):
+                self.callee_targets(x, lhs)
+            elif isinstance(x, list):
+                for y in x:
+                    self.callee_targets(y, lhs)
 
     def kernel_targets(self, e, lhs):
         """`algorithms::addmul(&mut x.limbs, ..)` anywhere in e mutates x."""
@@ -1224,6 +1296,10 @@ class Tr:
                 return "%s let '(%s) := %s in %s\n  %s" % (" ".join(b), ", ".join(x[0] for x in parts), a,
                                                          " ".join(post), rest(env))
             raise Unsupported("assignment target")
+        if k == "expr" and s[1] == ("var", "continue"):
+            if not getattr(f, "loopfins", None):
+                raise Unsupported("continue outside a for loop")
+            return f.loopfins[-1](env)
         if k == "expr":
             e = s[1]
             if e[0] == "macro":
@@ -1252,8 +1328,9 @@ class Tr:
             if e[0] == "if":
                 bc, ac, _ = self.ex(f, e[1], env, "bool")
                 th, el = e[2], e[3]
-                # early return: `if c { return e; }`
-                if el is None and th[1] and th[1][-1][0] == "return" and th[2] is None:
+                # early return / continue: `if c { ..; return e; }`, `if c { ..; continue; }`
+                if el is None and th[1] and th[2] is None and \
+                        (th[1][-1][0] == "return" or th[1][-1] == ("expr", ("var", "continue"))):
                     body = self.stmts(f, th[1], 0, dict(env), lambda _e: "Panic", retty)
                     return "%s if %s then (%s) else\n  %s" % (" ".join(bc), ac, body, rest(env))
                 # value-less if with assignments: thread the assigned variables
@@ -1341,7 +1418,13 @@ class Tr:
                 env2[iv] = (iv, "usize")
                 for v in vs:
                     env2[v] = (v, env[v][1])
-                bcode = self.stmts(f, body[1], 0, env2, lambda en: "Val " + tup(en), retty)
+                if not hasattr(f, "loopfins"):
+                    f.loopfins = []
+                f.loopfins.append(lambda en: "Val " + tup(en))
+                try:
+                    bcode = self.stmts(f, body[1], 0, env2, lambda en: "Val " + tup(en), retty)
+                finally:
+                    f.loopfins.pop()
                 f.impure = True
                 w, st = f.fresh(), f.fresh()
                 cur = tup(env)
@@ -1495,6 +1578,8 @@ TARGETS = [
     ("src/algorithms/div/small.rs", None, "div_nx2_normalized", "div_nx2_normalized", "g_div_nx2_normalized", None),
     ("src/algorithms/div/small.rs", None, "div_nx1", "div_nx1", "g_div_nx1", None),
     ("src/algorithms/div/small.rs", None, "div_nx2", "div_nx2", "g_div_nx2", None),
+    # Knuth division (sub-slices as windows: subslice / splice; `continue`)
+    ("src/algorithms/div/knuth.rs", None, "div_nxm_normalized", "div_nxm_normalized", "g_div_nxm_normalized", None),
     # Montgomery multiplication: const-generic arrays, nested counted loops (reduce1_carry: model function)
     ("src/algorithms/mul_redc.rs", None, "mul_redc", "mul_redc", "g_mul_redc", None),
     ("src/algorithms/mul_redc.rs", None, "square_redc", "square_redc", "g_square_redc", None),
